@@ -27,11 +27,14 @@ FORBIDDEN = re.compile(r"\b(Admitted|admit|Axiom|Parameter|Conjecture|Unset Guar
 # proof obligations
 
 def coq_sources():
+    """the .v files of the development = those listed in coq/_CoqProject (work in progress that is not yet part of
+    the build is not part of the development either)"""
     out = []
-    for root, _, fs in os.walk(build.COQ):
-        for f in fs:
-            if f.endswith(".v"):
-                out.append(os.path.join(root, f))
+    with open(os.path.join(build.COQ, "_CoqProject")) as f:
+        for line in f:
+            line = line.strip()
+            if line.endswith(".v"):
+                out.append(os.path.join(build.COQ, line))
     return sorted(out)
 
 
@@ -70,8 +73,9 @@ def proof_obligations(prop):
     t0 = time.time()
     gen_err = None
     try:
-        import gen_fragments
+        import gen_fragments, gen_guards
         gen_info = gen_fragments.regenerate()
+        gen_info["guards"] = gen_guards.regenerate()     # scan guards translated from the current sources
     except Exception as e:   # translator failure is reported, never silently ignored
         gen_info = dict(error=str(e))
         gen_err = str(e)
